@@ -103,7 +103,7 @@ def replay_commit(nv, ns, powers, votes):
     from vlib import replay as R
 
     def rp(model, path):
-        pw = [mval(model, p) % (1 << 62) for p in powers]
+        pw = [mval(model, p) for p in powers]
         spec = []
         for (is_commit, has_sig, addr, sig_ok, which) in votes:
             if not mval(model, is_commit):
@@ -128,6 +128,7 @@ def c09_2(run):
     shapes = [(1, 0), (1, 1), (2, 1), (2, 2)] if run.tier == 'quick' else [(1, 0), (1, 1), (1, 2), (2, 1), (2, 2), (3, 2), (3, 3), (2, 3)]
     run.bound(validator_set='1..2 validators (3 thorough), arbitrary keys and powers', signatures='0..2 votes (3 thorough), arbitrary flags/addresses/signatures',
               signature_check='oracle: an uninterpreted predicate of (public key, signature, timestamp)')
+    run.bound(voting_power='each validator power < 2^59 (CometBFT caps the total at i64::MAX/8)')
     run.assume('validators of the trusted validator-set response have pairwise distinct addresses; account::Id::from(pubkey) is a function of the key')
     n_ok = 0
     for nv, ns in shapes:
@@ -150,6 +151,7 @@ def c09_2(run):
         commit = B.struct(ex, 'tendermint::block::Commit', height=z3.BitVec('commit_height', 64), signatures=M.new_vec('Vec<CommitSig>', sigs))
         st = ex.start(f, [B.cell(commit), B.cell(vset), B.cell(Obj('tendermint::chain::Id'))])
         st.pc += [ADDR_OF(pks[a_]) != ADDR_OF(pks[b_]) for a_ in range(nv) for b_ in range(a_ + 1, nv)]
+        st.pc += [z3.ULT(x, z3.BitVecVal(1 << 59, 64)) for x in pws]      # CometBFT caps the total voting power at i64::MAX / 8
         for i, p in enumerate(run.explore(ex, st)):
             lab = f'[{nv} validators, {ns} votes, path {i}]'
             if p.kind != 'return':
